@@ -21,12 +21,10 @@ Proof.
      destruct ((b <? 0) && (_ <? b)) eqn:E2; [ asr_neg_tac a b Hg | discriminate ] ]).
 Qed.
 
-Definition asr_no_ub_fwrapv_full : Prop :=
-  forall t a b, ity_ok t -> in_ity t a -> in_ity I64 b -> h_asr FWRAPV t a b <> OUB.
-Lemma asr_no_ub_fwrapv_refuted : ~ asr_no_ub_fwrapv_full.
-Proof.
-  intros H. apply (H I64 (-1) (-1)); [cbn; tauto| | |]; vm_compute; try reflexivity; split; discriminate.
-Qed.
+(* a remark about the dialects, not a defect of any supported build: -fwrapv alone (signed << as in ISO C) would
+   leave the negative-count branch `a << -b` of nelua_asr_ undefined; gcc and clang both define it *)
+Lemma asr_needs_gnu_shl : h_asr FWRAPV I64 (-1) (-1) = OUB /\ h_asr GNU I64 (-1) (-1) = ORet (-2).
+Proof. split; reflexivity. Qed.
 
 (* the helpers as emitted (position of the `b == -1` line scraped from cbuiltins.lua) *)
 Lemma emitted_div_helpers_no_ub m t checked a b : m_wrapv m = true -> In t signed_types -> in_ity t a -> in_ity t b ->
@@ -86,3 +84,9 @@ Example repaired_cases :
   static_assert_holds t_repaired_union = true /\ nl t_repaired_union = (8, 8) /\
   static_assert_holds t_repaired_aligned = true /\ nl t_repaired_aligned = (16, 16).
 Proof. vm_compute. repeat split; reflexivity. Qed.
+
+(* ---------- every supported build: the dialect given by the scraped base flags ---------- *)
+Lemma base_mode_wrapv : m_wrapv base_mode = true.
+Proof. reflexivity. Qed.
+Lemma base_mode_gnushl : m_gnushl base_mode = true.
+Proof. reflexivity. Qed.
